@@ -77,7 +77,50 @@ def lettersOf (ns : List Seg) : List Char := ns.map (fun g => g.toPSeg.letter)
 def closeL (c : Bool) : List Char := if c then ['h'] else []
 def closeP (c : Bool) (s : Point) : List Point := if c then [s] else []
 
-theorem squareCoords_eq : squareCoords = axisAligned := rfl
+/-- The regenerated `has_square_coordinates` is the specification's `axisAligned`. -/
+theorem squareCoords_eq : squareCoords = axisAligned := by
+  funext p0 p1 p2 p3
+  simp only [squareCoords, has_square_coordinates, axisAligned]
+
+/-- `do_m l c v y` with the regenerated operand order unfolded. -/
+theorem doSeg_m (x y : Rat) (st : IState) : doSeg .m [.num x, .num y] st = pushSeg st (.m (x, y)) := rfl
+theorem doSeg_l (x y : Rat) (st : IState) : doSeg .l [.num x, .num y] st = pushSeg st (.l (x, y)) := rfl
+theorem doSeg_c (x1 y1 x2 y2 x3 y3 : Rat) (st : IState) :
+    doSeg .c [.num x1, .num y1, .num x2, .num y2, .num x3, .num y3] st = pushSeg st (.c (x1, y1) (x2, y2) (x3, y3)) := rfl
+theorem doSeg_v (x2 y2 x3 y3 : Rat) (st : IState) :
+    doSeg .v [.num x2, .num y2, .num x3, .num y3] st = pushSeg st (.v (x2, y2) (x3, y3)) := rfl
+theorem doSeg_y (x1 y1 x3 y3 : Rat) (st : IState) :
+    doSeg .y [.num x1, .num y1, .num x3, .num y3] st = pushSeg st (.y (x1, y1) (x3, y3)) := rfl
+
+/-- An operand that is not a number: nothing is appended. -/
+theorem doSeg_bad (k : OpK) (args : List Operand) (st : IState) (h : allNums args = none) : doSeg k args st = st := by
+  simp [doSeg, h]
+
+/-- The regenerated constants of the redundant-`l` test, unfolded. -/
+theorem redundantL_eq (shape : List Char) (pts : List Point) :
+    redundantL shape pts =
+      decide (shape.length > 3 ∧ shape.drop (shape.length - 2) = ['l', 'h'] ∧ pts[pts.length - 2]? = pts.head?) := by
+  rw [List.head?_eq_getElem?]; rfl
+
+/-- The classification with the regenerated shape strings and point indices unfolded. -/
+theorem classifyShape_eq (a : PaintArgs) (shape : List Char) (pts : List Point) (tpath : List PSeg) :
+    classifyShape a shape pts tpath =
+      (if shape = ['m', 'l', 'h'] ∨ shape = ['m', 'l'] then
+        match pts with
+        | p0 :: p1 :: _ => [mkLine a p0 p1 tpath]
+        | _ => []
+      else if shape = ['m', 'l', 'l', 'l', 'h'] ∨ shape = ['m', 'l', 'l', 'l', 'l'] then
+        match pts with
+        | [p0, p1, p2, p3, p4] =>
+          if p0 = p4 ∧ squareCoords p0 p1 p2 p3 = true then
+            [{ mkRect a (p0.1, p0.2, p2.1, p2.2) tpath with pts := [p0, p1, p2, p3] }]
+          else [mkCurve a pts tpath]
+        | _ => []
+      else [mkCurve a pts tpath]) := by
+  unfold classifyShape
+  simp only [lineShapes, rectShapes, linePts, closedLoopPts, rectCorners, rectPtsTake, List.mem_cons,
+    List.not_mem_nil, or_false]
+  rcases pts with _ | ⟨p0, _ | ⟨p1, _ | ⟨p2, _ | ⟨p3, _ | ⟨p4, _ | ⟨p5, r⟩⟩⟩⟩⟩⟩ <;> simp
 
 theorem rect_bbox (s e1 e2 e3 : Point) (h : axisAligned s e1 e2 e3 = true) :
     getBound [(s.1, s.2), (e2.1, s.2), (e2.1, e2.2), (s.1, e2.2)] = getBound [s, e1, e2, e3] := by
@@ -97,47 +140,47 @@ theorem classify_spec (a : PaintArgs) (s' : Point) (ns : List Seg) (c : Bool) (t
   match ns, hne with
   | [a1], _ =>
     cases c <;> cases a1 <;>
-      simp [classifyShape, lettersOf, closeL, closeP, kindPts, Seg.toPSeg, PSeg.letter, Seg.isLine, Seg.endPt,
+      simp [classifyShape_eq, lettersOf, closeL, closeP, kindPts, Seg.toPSeg, PSeg.letter, Seg.isLine, Seg.endPt,
         specShape, mkLine, mkCurve]
   | [a1, a2], _ =>
     cases c <;> cases hs : ([a1, a2].all Seg.isLine) <;>
-      simp [classifyShape, lettersOf, closeL, closeP, kindPts, hs, specShape, mkCurve, letter_toPSeg_ne_h]
+      simp [classifyShape_eq, lettersOf, closeL, closeP, kindPts, hs, specShape, mkCurve, letter_toPSeg_ne_h]
   | [a1, a2, a3], _ =>
     cases c <;> cases hs : ([a1, a2, a3].all Seg.isLine)
-    · simp [classifyShape, lettersOf, closeL, closeP, kindPts, hs, specShape, mkCurve, letter_toPSeg_ne_h]
-    · simp [classifyShape, lettersOf, closeL, closeP, kindPts, hs, specShape, mkCurve, letter_toPSeg_ne_h]
+    · simp [classifyShape_eq, lettersOf, closeL, closeP, kindPts, hs, specShape, mkCurve, letter_toPSeg_ne_h]
+    · simp [classifyShape_eq, lettersOf, closeL, closeP, kindPts, hs, specShape, mkCurve, letter_toPSeg_ne_h]
     · have : ¬ (a1.toPSeg.letter = 'l' ∧ a2.toPSeg.letter = 'l' ∧ a3.toPSeg.letter = 'l') := by
         simp only [letter_eq_l]; simp at hs; grind
-      simp [classifyShape, lettersOf, closeL, closeP, kindPts, hs, specShape, mkCurve, this]
+      simp [classifyShape_eq, lettersOf, closeL, closeP, kindPts, hs, specShape, mkCurve, this]
     · simp only [List.all_cons, List.all_nil, Bool.and_true, Bool.and_eq_true, isLine_iff] at hs
       obtain ⟨⟨p1, rfl⟩, ⟨p2, rfl⟩, ⟨p3, rfl⟩⟩ := hs
       by_cases hax : axisAligned s' p1 p2 p3 = true
       · have hb := rect_bbox s' p1 p2 p3 hax
-        simp [classifyShape, lettersOf, closeL, closeP, kindPts, specShape, mkRect, mkShape, Seg.toPSeg,
+        simp [classifyShape_eq, lettersOf, closeL, closeP, kindPts, specShape, mkRect, mkShape, Seg.toPSeg,
           PSeg.letter, Seg.isLine, Seg.endPt, hax, eraseRectPts, hb, squareCoords_eq]
-      · simp [classifyShape, lettersOf, closeL, closeP, kindPts, specShape, mkCurve, mkShape, Seg.toPSeg,
+      · simp [classifyShape_eq, lettersOf, closeL, closeP, kindPts, specShape, mkCurve, mkShape, Seg.toPSeg,
           PSeg.letter, Seg.isLine, Seg.endPt, hax, eraseRectPts, squareCoords_eq]
   | [a1, a2, a3, a4], _ =>
     cases c <;> cases hs : ([a1, a2, a3, a4].all Seg.isLine)
     · have : ¬ (a1.toPSeg.letter = 'l' ∧ a2.toPSeg.letter = 'l' ∧ a3.toPSeg.letter = 'l' ∧
           a4.toPSeg.letter = 'l') := by
         simp only [letter_eq_l]; simp at hs; grind
-      simp [classifyShape, lettersOf, closeL, closeP, kindPts, hs, specShape, mkCurve, this, letter_toPSeg_ne_h]
+      simp [classifyShape_eq, lettersOf, closeL, closeP, kindPts, hs, specShape, mkCurve, this, letter_toPSeg_ne_h]
     · simp only [List.all_cons, List.all_nil, Bool.and_true, Bool.and_eq_true, isLine_iff] at hs
       obtain ⟨⟨p1, rfl⟩, ⟨p2, rfl⟩, ⟨p3, rfl⟩, ⟨p4, rfl⟩⟩ := hs
       by_cases hax : p4 = s' ∧ axisAligned s' p1 p2 p3 = true
       · obtain ⟨rfl, hax2⟩ := hax
         have hb := rect_bbox p4 p1 p2 p3 hax2
-        simp [classifyShape, lettersOf, closeL, closeP, kindPts, specShape, mkRect, mkShape, Seg.toPSeg,
+        simp [classifyShape_eq, lettersOf, closeL, closeP, kindPts, specShape, mkRect, mkShape, Seg.toPSeg,
           PSeg.letter, Seg.isLine, Seg.endPt, hax2, eraseRectPts, hb, squareCoords_eq]
       · have h4 : ¬ (s' = p4 ∧ axisAligned s' p1 p2 p3 = true) := fun h => hax ⟨h.1.symm, h.2⟩
-        simp [classifyShape, lettersOf, closeL, closeP, kindPts, specShape, mkCurve, mkShape, Seg.toPSeg,
+        simp [classifyShape_eq, lettersOf, closeL, closeP, kindPts, specShape, mkCurve, mkShape, Seg.toPSeg,
           PSeg.letter, Seg.isLine, Seg.endPt, hax, eraseRectPts, squareCoords_eq, h4]
-    · simp [classifyShape, lettersOf, closeL, closeP, kindPts, hs, specShape, mkCurve, letter_toPSeg_ne_h]
-    · simp [classifyShape, lettersOf, closeL, closeP, kindPts, hs, specShape, mkCurve, letter_toPSeg_ne_h]
+    · simp [classifyShape_eq, lettersOf, closeL, closeP, kindPts, hs, specShape, mkCurve, letter_toPSeg_ne_h]
+    · simp [classifyShape_eq, lettersOf, closeL, closeP, kindPts, hs, specShape, mkCurve, letter_toPSeg_ne_h]
   | a1 :: a2 :: a3 :: a4 :: a5 :: rest, _ =>
     cases c <;> cases hs : ((a1 :: a2 :: a3 :: a4 :: a5 :: rest).all Seg.isLine) <;>
-      simp [classifyShape, lettersOf, closeL, closeP, kindPts, hs, specShape, mkCurve]
+      simp [classifyShape_eq, lettersOf, closeL, closeP, kindPts, hs, specShape, mkCurve]
 
 
 /-! ### paintSingle on the flat encoding of one sub-path -/
@@ -190,8 +233,8 @@ theorem paintSingle_flat1_unfold (ctm : Matrix) (a : PaintArgs) (sp : SubPath) :
   have ht := flat_tpath (apply_matrix_pt ctm) sp
   obtain ⟨s, segs, c, imp⟩ := sp
   simp only [flat1] at ht ⊢
-  simp only [paintSingle, ht, List.map_cons, lastPt_m, letter_m, flat_letters (apply_matrix_pt ctm),
-    flat_pts (apply_matrix_pt ctm)]
+  simp only [paintSingle, redundantCut, redundantTail, ht, List.map_cons, lastPt_m, letter_m,
+    flat_letters (apply_matrix_pt ctm), flat_pts (apply_matrix_pt ctm)]
 
 /-! ### the redundant closing `l` -/
 
@@ -208,7 +251,7 @@ theorem red_closed (N0 : List Seg) (g : Seg) (s' : Point) :
   have e2 : (s' :: ((N0 ++ [g]).map Seg.endPt ++ closeP true s')) = (s' :: N0.map Seg.endPt) ++ [g.endPt, s'] := by
     simp [closeP]
   rw [e1, e2]
-  unfold redundantL
+  rw [redundantL_eq]
   have l1 : (('m' :: lettersOf N0) ++ [g.toPSeg.letter, 'h']).length - 2 = ('m' :: lettersOf N0).length := by simp
   have l2 : ((s' :: N0.map Seg.endPt) ++ [g.endPt, s']).length - 2 = (s' :: N0.map Seg.endPt).length := by simp
   rw [l1, l2, List.drop_left]
@@ -220,7 +263,7 @@ theorem red_open (ns : List Seg) (pts : List Point) (hne : ns ≠ []) :
     redundantL ('m' :: (lettersOf ns ++ closeL false)) pts = false := by
   rcases eq_nil_or_snoc ns with rfl | ⟨N0, g, rfl⟩
   · exact absurd rfl hne
-  · unfold redundantL
+  · rw [redundantL_eq]
     simp only [closeL, Bool.false_eq_true, if_false, List.append_nil]
     rw [decide_eq_false_iff_not]
     rintro ⟨_, hdrop, _⟩
@@ -337,7 +380,7 @@ def hasSeg (s : Shape) : Bool := s.path.any PSeg.isSeg
 theorem classifyShape_path (a : PaintArgs) (shape : List Char) (pts : List Point) (tpath : List PSeg) :
     ∀ s ∈ classifyShape a shape pts tpath, s.path = tpath := by
   intro s hs
-  unfold classifyShape at hs
+  rw [classifyShape_eq] at hs
   split at hs
   · split at hs
     · simp only [List.mem_singleton] at hs; subst hs; rfl
